@@ -148,7 +148,7 @@ AlpmG ==
     V1   |-> T({"0", "1", "2", "10", "1.0", "1.0a", "1.0.1", "1.0.a", "1a", "1.a", "1.0rc", "1.0rc1", "1.0alpha",
                 "1.0beta", "1.0pre1", "1.0.rc1", "1.00", "1.01", "1.1", "1.10", "1.9", "2.0", "1.0_1", "1.0+1",
                 "1.0." \o D20, "1.0." \o Z23, "1.0." \o D23, "1.0.0", "1.0.0.0", "1.0b", "1.0B", "1.0.b1",
-                "20200101", "1.0+git20200101", "1.0_alpha", "1.0.alpha"}, "REL")
+                "20200101", "1.0+git20200101", "1.0_alpha", "1.0.alpha", "1.", "1..a", "1a.", "1a.a", "1a0", "1..0", "1.0."}, "REL")
              \cup T({"1"}, "C1"),
     C1   |-> T({"0", "1", "a", "B", ".", "_", "+"}, "C2") \cup T({""}, "REL"),
     C2   |-> T({"0", "1", "a", "B", ".", "_", "+"}, "REL") \cup T({""}, "REL"),
